@@ -22,12 +22,12 @@ TEXT = {
  "C12": "every_operation_returns_a_minimal_result, minimal_form_is_canonical, identical_decides_equality (iff), bool_is_true_exactly_for_the_constant_one, algebraic_identities_up_to_identical (7 identities). Minimality of scalar-path layering results is covered by the correspondence (raw step tables compared) rather than by a theorem.",
  "C13": "mutate-then-observe programs + object identity check; functional model (no sharing by construction): partial.",
  "C14": "model objects carry the two caches; histories of layer calls and queries; invariant theorem pending.",
- "C15": "complete shape x side grid; closed rule and mismatch_iff proved for the binary operators (binop_api_err, spec2 closed component); remaining operations by correspondence.",
- "C16": "programs in several provenance / materialisation / scalar-type variants against one model result; op_respects_deq pending.",
+ "C15": "side rule and mismatch-iff theorems for all binary operators (scalars on either side), mask/where/fillna by a function, one-operand operations, clip, layering, tuple shorthands (never a mismatch). Collection aggregation, cov/corr, shift and resample are covered by the complete shapes x sides grid of the correspondence check.",
+ "C16": "binary_operators_respect_denotation, one_operand_operations_respect_denotation, materialisation_is_invisible: results depend only on the denoted functions and closed sides (for the minimal, well-formed objects the public API produces). Construction routes, scalar types and compositions are exercised by programs run in four provenance / materialisation / scalar-type variants each against the one model result.",
  "C17": "every program replayed in 7 domain types (int, float, naive datetime, tz-aware fixed/DST/UTC, timedelta) against the one model run; the generic-domain theorems (all of C01, C03-C05 are stated for every Ord D) carry the order-only part.",
  "C18": "aggregation model (union of step points, right limits, NaN-propagating reduction): theorems pending; correspondence + oracle over every container type.",
  "C19": "cov / corr (signed square, no sqrt in the model): theorems pending; correspondence + oracle incl. symmetry, cov(f,f)=var, lag equivalence programs.",
- "C20": "shift / diff / rolling_mean: theorems pending; correspondence + oracle.",
+ "C20": "shift_translates and diff_is_f_minus_shifted_f are theorems; rolling_mean (knots, window means, interpolation claim) is decided by correspondence + oracle only.",
 }
 def main():
     props = [json.loads(l) for l in open(os.path.join(ROOT, "properties.jsonl"))]
